@@ -137,7 +137,9 @@ def make_functions(cluster):
     modname = "c09m_%d_%d" % (os.getpid(), _n[0])
     src = ("from twosigma.memento import memento_function\nimport c09\n\n\n"
            "@memento_function(cluster=%r)\ndef work(x):\n    c09.REC.log(x)\n    return [x, x * x, 'v']\n\n\n"
-           "@memento_function(cluster=%r)\ndef other(x):\n    c09.REC.log(x)\n    return [x, x * x, 'v']\n" % (cluster, cluster))
+           "@memento_function(cluster=%r)\ndef other(x):\n    c09.REC.log(x)\n    return [x, x * x, 'v']\n\n\n"
+           "@memento_function(cluster=%r)\ndef outer(x):\n    c09.REC.log(x)\n    w = work(x - 200)\n"
+           "    return [x, x * x, 'v' if w == [x - 200, (x - 200) * (x - 200), 'v'] else 'inner-wrong']\n" % (cluster, cluster, cluster))
     fname = "<%s>" % modname
     linecache.cache[fname] = (len(src), None, src.splitlines(True), fname)
     mod = types.ModuleType(modname)
@@ -145,7 +147,7 @@ def make_functions(cluster):
     sys.modules[modname] = mod
     sys.modules.setdefault("c09", sys.modules[__name__])
     exec(compile(src, fname, "exec"), mod.__dict__)
-    return mod.work, mod.other
+    return mod.work, mod.other, mod.outer
 
 
 def cache_accounts(storage):
@@ -174,8 +176,9 @@ def run_scenario(sc, schedule, root):
         ConfigurationRepository(name="r", clusters={cluster: FunctionCluster(name=cluster, storage=st)})]))
     undo = install_mutex_logging(rl)
     try:
-        work, other = make_functions(cluster)
-        fn_of = lambda x: other if x >= 100 else work         # arguments >= 100 are calls of the second function
+        work, other, outer = make_functions(cluster)
+        # arguments >= 200 are calls of `outer` (which calls work(x - 200)), arguments >= 100 calls of the second function
+        fn_of = lambda x: outer if x >= 200 else (other if x >= 100 else work)
         for x in sc["warm"]:
             fn_of(x)(x)
         if sc["cache"] == "cold" and getattr(st, "_memory_cache", None) is not None:
@@ -184,7 +187,7 @@ def run_scenario(sc, schedule, root):
             instrument(st)
         del LOG[:]
         keyof = {}
-        for x in set(sc["args"]):
+        for x in set(sc["args"]) | {x - 200 for x in sc["args"] if x >= 200}:
             fr = fn_of(x).fn_reference().with_args(x)
             keyof[(fr.fn_reference.qualified_name, fr.arg_hash)] = x
 
@@ -213,32 +216,63 @@ def run_scenario(sc, schedule, root):
 
 
 def model_accepts(sc, obs):
-    """feed the logged events, in the order they took effect, to the model; returns (rejections, summary)"""
+    """feed the logged events, in the order they took effect, to the model; returns (rejections, summary).
+    Every *invocation* (frame) is one thread of the model: a nested call made by a running body is a new model thread that
+    goes through the same protocol while its caller stays in its critical section (the model places no bound on the number of
+    threads; keys within one call stack are distinct, so the re-entrancy of the real mutexes is never used)."""
     keyof = obs["keyof"]
-    lines = ["init 100 " + " ".join(str(x) for x in sorted(set(sc["warm"])))]
-    evs = []
+    warm = set(sc["warm"]) | {x - 200 for x in sc["warm"] if x >= 200}
+    lines = ["init 100 " + " ".join(str(x) for x in sorted(warm))]
+    stacks = collections.defaultdict(list)      # real thread -> [(model thread, key id)]
+    nvt = [0]
+    vts = []
+
+    def push(t, x):
+        nvt[0] += 1
+        stacks[t].append((nvt[0], x))
+        vts.append(nvt[0])
+        lines.append("start %d %d" % (nvt[0], x))
+        return nvt[0]
+
+    def frame(t, x):
+        for vt, k in reversed(stacks[t]):
+            if k == x:
+                return vt
+        return None
+
+    def pop(t, x):
+        for i in range(len(stacks[t]) - 1, -1, -1):
+            if stacks[t][i][1] == x:
+                del stacks[t][i]
+                return
     for e in obs["log"]:
         kind, t = e[0], e[1]
         if kind == "start":
-            lines.append("start %d %d" % (t, e[2]))
+            push(t, e[2])
         elif kind in ("pre", "lookup"):
             if e[2] not in keyof:
                 continue
-            lines.append("%s %d %d" % (kind, t, 1 if e[3] else 0))
-        elif kind in ("acq", "rel"):
+            x = keyof[e[2]]
+            vt = frame(t, x)
+            if vt is None:
+                vt = push(t, x)                   # a nested invocation begins with its pre-check
+            lines.append("%s %d %d" % (kind, vt, 1 if e[3] else 0))
+            if kind == "pre" and e[3]:
+                pop(t, x)
+        elif kind in ("acq", "rel", "memoize"):
             if e[2] not in keyof:
                 continue
-            lines.append("%s %d" % (kind, t))
+            x = keyof[e[2]]
+            vt = frame(t, x)
+            lines.append("%s %d" % (kind, vt if vt is not None else 0))
+            if kind == "rel":
+                pop(t, x)
         elif kind == "exec":
-            lines.append("exec %d" % t)
-        elif kind == "memoize":
-            if e[2] not in keyof:
-                continue
-            lines.append("memoize %d" % t)
-        evs.append(lines[-1])
-    keys = sorted(set(sc["args"]) | set(sc["warm"]))
+            vt = frame(t, e[2])
+            lines.append("exec %d" % (vt if vt is not None else 0))
+    keys = sorted(set(sc["args"]) | warm | {x - 200 for x in sc["args"] if x >= 200})
     lines.append("summary " + " ".join(str(k) for k in keys))
-    lines.append("idle " + " ".join(str(i + 1) for i in range(len(sc["args"]))))
+    lines.append("idle " + " ".join(str(v) for v in vts))
     outs = common.model_batch("conc", lines)
     rej = [(i, l) for i, (l, o) in enumerate(zip(lines[1:-2], outs[1:-2])) if o != "ok"]
     summ = {int(a.split(":")[0]): a.split(":")[1:] for a in outs[-2].split(" ") if a}
@@ -253,8 +287,11 @@ def judge(sc, obs, seq_cache):
         elif r[1] != [x, x * x, "v"]:
             fails.append(dict(clause="correct-value", thread=i + 1, arg=x, got=r[1]))
     execs = collections.Counter(e[2] for e in obs["log"] if e[0] == "exec")
-    for x in set(sc["args"]):
-        want = 0 if x in sc["warm"] else 1
+    warm = set(sc["warm"]) | {x - 200 for x in sc["warm"] if x >= 200}
+    for x in set(sc["args"]) | {x - 200 for x in sc["args"] if x >= 200}:
+        want = 0 if x in warm else 1
+        if x < 200 and x not in sc["args"] and all((y in warm) for y in sc["args"] if y == x + 200):
+            want = 0                          # the inner call is only made by bodies that do not run
         if execs.get(x, 0) != want:
             fails.append(dict(clause="single-flight", arg=x, executions=execs.get(x, 0), expected=want))
     c = obs["cache"]
@@ -347,7 +384,7 @@ def long_flight(root, n_other=1100):
             go.wait(60)
     try:
         REC.__dict__["log"] = log
-        work, other = make_functions("c09")
+        work, other, _outer = make_functions("c09")
         res = {}
 
         def call(name, fn, x):
@@ -405,6 +442,11 @@ SCENARIOS = [
     dict(name="three-threads-two-keys", args=[5, 6, 5], warm=[], cache="cold"),
     dict(name="different-functions", args=[5, 105], warm=[], cache="cold"),
     dict(name="different-functions-one-warm", args=[105, 5], warm=[5], cache="warm"),
+    # nested invocations: outer(x) calls work(x - 200) from its body
+    dict(name="nested-same-outer", args=[205, 205], warm=[], cache="cold"),
+    dict(name="nested-outer-and-its-inner", args=[205, 5], warm=[], cache="cold"),
+    dict(name="nested-inner-first", args=[5, 205, 205], warm=[], cache="cold"),
+    dict(name="nested-inner-warm", args=[205, 205], warm=[5], cache="warm"),
 ]
 
 
@@ -441,8 +483,9 @@ def main(chk, replay=None):
         shutil.rmtree(root, ignore_errors=True)
         nsteps = max(ref["steps"])
         seq_cache = ref["cache"]
-        scheds = schedules_single_preemption(nsteps, len(sc["args"]), stride=(4 if quick else 1))
-        scheds += [random_schedule(rng, len(sc["args"]), nsteps, rng.randint(2, 6)) for _ in range(12 if quick else 150)]
+        nested = any(x >= 200 for x in sc["args"])
+        scheds = schedules_single_preemption(nsteps, len(sc["args"]), stride=((11 if nested else 4) if quick else 1))
+        scheds += [random_schedule(rng, len(sc["args"]), nsteps, rng.randint(2, 6)) for _ in range((8 if nested else 12) if quick else 150)]
         for sch in scheds:
             root = tempfile.mkdtemp(prefix="c09_", dir=chk.tmpdir())
             try:
